@@ -33,6 +33,10 @@ type Case struct {
 	// ShallowFirst: first byte of the absent table sum of shallow commits (decides where the
 	// missing table sorts among the stored ones)
 	ShallowFirst []int `json:"shallow_first"`
+	// FailRow > 0: while prune runs, the n-th row read from the ref store fails once (a listing
+	// breaks off part-way): prune must report the error or still be right - never take the refs it
+	// did not get to see for deleted
+	FailRow int `json:"fail_row,omitempty"`
 }
 
 var sub = evid.Register("prune", run)
@@ -95,6 +99,9 @@ func TestPropPrune(t *testing.T) {
 				Node:    n - 1 - rapid.IntRange(0, n-1).Draw(t, "node"),
 				Deleted: rapid.IntRange(0, 3).Draw(t, "deleted") == 0,
 			})
+		}
+		if rapid.IntRange(0, 3).Draw(t, "failrow") == 0 {
+			c.FailRow = rapid.IntRange(1, 8).Draw(t, "failRow")
 		}
 		sub.Check(t, c)
 	})
@@ -163,7 +170,7 @@ func run(c Case) (o evid.Outcome, err error) {
 	if err != nil {
 		return o, fmt.Errorf("HARNESS: %v", err)
 	}
-	rs, _, closeFn, err := stores.NewRefStore()
+	rs, faults, closeFn, err := stores.NewFaultyRefStore()
 	if err != nil {
 		return o, fmt.Errorf("HARNESS: %v", err)
 	}
@@ -200,6 +207,33 @@ func run(c Case) (o evid.Outcome, err error) {
 		tblBlockIdx[ts] = t.BlockIndices
 	}
 
+	if c.FailRow > 0 {
+		rowsRead, hit := 0, false
+		faults.SetGate(func(kind, query string) error {
+			if kind == "row" {
+				rowsRead++
+				if rowsRead == c.FailRow {
+					hit = true
+					return stores.ErrSQLInjected
+				}
+			}
+			return nil
+		})
+		perr := prune.Prune(db, rs, nil)
+		faults.SetGate(nil)
+		if hit {
+			o.Class("ref-listing-broke-off")
+		}
+		if perr != nil {
+			// reported: nothing a live ref reaches may be gone
+			mid := db.Snapshot()
+			for i, s := range sums {
+				if _, ok := mid["com/"+string(s)]; reach[i] && !ok {
+					return o, fmt.Errorf("prune failed (%v) after removing commit c%d, which a ref reaches", perr, i)
+				}
+			}
+		}
+	}
 	if err := prune.Prune(db, rs, nil); err != nil {
 		return o, fmt.Errorf("Prune: %v", err)
 	}
